@@ -61,12 +61,16 @@ example : NoReentry (σ := Unit)
     same code with every `with journal:` removed on the un-wrapped table.  The IR state, the outcome
     (return value or exception) of every operation, the exception leaving the block and the
     sequence of original functions executed (with their receivers and outcomes) are equal.
-    Hypotheses: constructors return None (`InitNone`); the wrappers' `details` expressions do not
-    raise (`DetailsOk`; it was false of /repo for `Node(..., graph=g)`: defect D70, and it is needed:
-    `C20_transparent_needs_DetailsOk`); no `__enter__` of the block is refused, i.e. no journal
-    object is entered again while active (`NoReentry`, needed: `C20_transparent_needs_NoReentry`) and
-    the block's journals are not active when it starts. -/
-theorem C20_transparent (cfg : Cfg σ) (hinit : InitNone cfg) (hdet : DetailsOk cfg) (fuel : Nat)
+    Hypotheses, each shown to be needed by a counterexample below:
+    * `ProcNone`: constructors and property setters return None (their wrappers discard the result);
+    * `DetailsOk`: the wrappers' `details` expressions do not raise (it was false of /repo for
+      `Node(..., graph=g)`: defect D70);
+    * `DetailsPure`: evaluating a `details` expression does not change the state — in particular it
+      does not consume a one-shot iterable argument;
+    * no `__enter__` of the block is refused: no journal object is entered again while active
+      (`NoReentry`) and the block's journals are not active when it starts. -/
+theorem C20_transparent (cfg : Cfg σ) (hproc : ProcNone cfg) (hdet : DetailsOk cfg)
+    (hpure : DetailsPure cfg) (fuel : Nat)
     (b : Block σ) (w : World σ) (hchain : Chain w.table) (hcap : CapturedOk w) (hn : NoReentry b)
     (hfresh : ∀ j ∈ journalsOf b, (w.journals j).active = false) :
     let r := runBlock cfg fuel b w
@@ -74,64 +78,85 @@ theorem C20_transparent (cfg : Cfg σ) (hinit : InitNone cfg) (hdet : DetailsOk 
     r.1.ir = r0.1.ir ∧ r.1.log = r0.1.log ∧ r.2 = r0.2 ∧
       r.1.trace.filter isCall = r0.1.trace.filter isCall := by
   have hrel : Rel w { w with table := pristine } := ⟨rfl, rfl, rfl, hchain, rfl⟩
-  have h := block_rel cfg hinit hdet fuel b w _ hrel hcap hn hfresh
+  have h := block_rel cfg hproc (details_eq hdet hpure) fuel b w _ hrel hcap hn hfresh
   exact ⟨h.1.ir, h.1.log, h.2.2, h.1.calls⟩
 
 /-- the start of a program: nothing wrapped, no journal ever entered -/
-theorem C20_transparent_from_start (cfg : Cfg σ) (hinit : InitNone cfg) (hdet : DetailsOk cfg)
-    (fuel : Nat) (b : Block σ) (s : σ) (hn : NoReentry b) :
+theorem C20_transparent_from_start (cfg : Cfg σ) (hproc : ProcNone cfg) (hdet : DetailsOk cfg)
+    (hpure : DetailsPure cfg) (fuel : Nat) (b : Block σ) (s : σ) (hn : NoReentry b) :
     let r := runBlock cfg fuel b (initialWorld s)
     let r0 := runBlock cfg fuel (strip b) (initialWorld s)
     r.1.ir = r0.1.ir ∧ r.1.log = r0.1.log ∧ r.2 = r0.2 ∧
       r.1.trace.filter isCall = r0.1.trace.filter isCall := by
   have hcap : CapturedOk (initialWorld s) := by intro j t ht; simp [initialWorld] at ht
-  exact C20_transparent cfg hinit hdet fuel b (initialWorld s) chain_pristine hcap hn (fun _ _ => rfl)
+  exact C20_transparent cfg hproc hdet hpure fuel b (initialWorld s) chain_pristine hcap hn
+    (fun _ _ => rfl)
 
-/-- `DetailsOk` is needed: if the `details` expression of one wrapper raises (as `repr(node)` does
-    in the wrapper of `Graph.append` when `Node.__init__` appends the half-built node), the
+/-- `DetailsOk` is needed: if the `details` expression of one wrapper raises (as `repr(node)` did
+    in the wrapper of `Graph.append` when `Node.__init__` appended the half-built node), the
     operation raises inside a journal and succeeds outside. -/
 theorem C20_transparent_needs_DetailsOk :
     let cfg : Cfg Unit := { impl := fun _ _ _ => .done (.ret .none), owner := id,
-                            details := fun k _ _ _ => k != 21 }
+                            details := fun k _ _ s => if k = 21 then none else some s }
     let b : Block Unit := .withJ 0 (.op (.call 21 5 .none fun o => .done o))
     (runBlock cfg 3 b (initialWorld ())).1.log = [.raise detailsExn] ∧
     (runBlock cfg 3 (strip b) (initialWorld ())).1.log = [.ret .none] := by
   simp [runBlock, strip, runProg, dispatch, runImpl, runOrig, enter, enterRaw, exit, upd, initialWorld,
     pristine, emit, kindOf, slots]
 
+/-- `DetailsPure` is needed: a `details` expression that changes the state (here: counts up, as
+    consuming one element of a generator argument would) makes the operation see, and leave, a
+    different state inside a journal. -/
+theorem C20_transparent_needs_DetailsPure :
+    let cfg : Cfg Nat := { impl := fun _ _ _ => .get fun s => .done (.ret (.int s)), owner := id,
+                           details := fun _ _ _ s => some (s + 1) }
+    let b : Block Nat := .withJ 0 (.op (.call 22 5 .none fun o => .done o))
+    (runBlock cfg 3 b (initialWorld 0)).1.log = [.ret (.int 1)] ∧
+    (runBlock cfg 3 (strip b) (initialWorld 0)).1.log = [.ret (.int 0)] ∧
+    (runBlock cfg 3 b (initialWorld 0)).1.ir = 1 ∧
+    (runBlock cfg 3 (strip b) (initialWorld 0)).1.ir = 0 := by
+  simp [runBlock, strip, runProg, dispatch, runImpl, runOrig, enter, enterRaw, exit, upd, initialWorld,
+    pristine, emit, kindOf, slots, record]
+
 /-- `NoReentry` is needed: the nested `__enter__` of an active journal raises. -/
 theorem C20_transparent_needs_NoReentry :
     let cfg : Cfg Unit := { impl := fun _ _ _ => .done (.ret .none), owner := id,
-                            details := fun _ _ _ _ => true }
+                            details := fun _ _ _ s => some s }
     let b : Block Unit := .withJ 0 (.withJ 0 (.op (.done (.ret .none))))
     (runBlock cfg 3 b (initialWorld ())).2 = some enterExn ∧
     (runBlock cfg 3 (strip b) (initialWorld ())).2 = none := by
   simp [runBlock, strip, runProg, enter, enterRaw, exit, upd, initialWorld]
 
-/-- `InitNone` is needed: `_init_wrapper` discards what the original returned. -/
-theorem C20_transparent_needs_InitNone :
+/-- `ProcNone` is needed: `_init_wrapper` (and `_setter_wrapper`) discard what the original returned. -/
+theorem C20_transparent_needs_ProcNone :
     let cfg : Cfg Unit := { impl := fun _ _ _ => .done (.ret (.int 5)), owner := id,
-                            details := fun _ _ _ _ => true }
+                            details := fun _ _ _ s => some s }
     let b : Block Unit := .withJ 0 (.op (.call 1 5 .none fun o => .done o))
     (runBlock cfg 3 b (initialWorld ())).1.log = [.ret .none] ∧
     (runBlock cfg 3 (strip b) (initialWorld ())).1.log = [.ret (.int 5)] := by
   simp [runBlock, strip, runProg, dispatch, runImpl, runOrig, enter, enterRaw, exit, upd, initialWorld,
     pristine, emit, kindOf, slots, record]
 
-/-- non-vacuity of `InitNone` and `DetailsOk`: constructors that call a method and return None,
-    methods that return a value or raise depending on the state -/
-example : InitNone (σ := Nat)
+/-- non-vacuity of `ProcNone`, `DetailsOk`, `DetailsPure`: constructors and setters that call a
+    method and return None, methods that return a value or raise depending on the state -/
+example : ProcNone (σ := Nat)
     { impl := fun k self _ =>
-        if kindOf k = .init then .call 11 self .none (fun _ => .done (.ret .none))
+        if kindOf k = .init ∨ kindOf k = .setter then .call 11 self .none (fun _ => .done (.ret .none))
         else .get (fun s => if s = 0 then .done (.raise 9) else .done (.ret (.int 1))),
-      owner := id, details := fun _ _ _ _ => true } := by
+      owner := id, details := fun _ _ _ s => some s } := by
   intro k hk disp self arg w v hv
   simp [hk, runProg] at hv
   exact hv.symm
 
 example : DetailsOk (σ := Nat)
-    { impl := fun _ _ _ => .done (.ret .none), owner := id, details := fun _ _ _ _ => true } :=
-  fun _ _ _ _ => rfl
+    { impl := fun _ _ _ => .done (.ret .none), owner := id, details := fun _ _ _ s => some s } :=
+  fun _ _ _ s => ⟨s, rfl⟩
+
+example : DetailsPure (σ := Nat)
+    { impl := fun _ _ _ => .done (.ret .none), owner := id, details := fun _ _ _ s => some s } := by
+  intro k self arg s s' h
+  simp at h
+  exact h.symm
 
 /-- non-vacuity of `Chain` / `CapturedOk`: they hold at program start and inside two journals -/
 example : Chain (enterRaw 1 (enterRaw 0 (initialWorld ()))).table ∧
@@ -154,16 +179,13 @@ example : Chain (enterRaw 1 (enterRaw 0 (initialWorld ()))).table ∧
 
 /-- **C20_entries**: for every journal `j` that is not active at the start and every block (no
     further hypothesis on the block: a refused re-entry just raises): the entries that `j` gains are
-    exactly `expectedFor` of the events of the run — i.e. one entry per instrumented call executed
-    while `j` was entered, in program order, where (as the code does it, Model/Journal.lean
-    `expectedFor`)
-    * a setter / method / container method contributes its entry at the moment it is *called*, before
-      its body runs, whether it then returns or raises; the entry designates `self`, or the owning
-      graph / node for container methods;
-    * a constructor contributes its entry at the moment it *returns*, after everything its body
-      did; a constructor that raises contributes nothing (the calls nested in it keep theirs);
-    * calls made while `j` is not entered contribute nothing.
-    This holds simultaneously for every journal of a nest (the theorem is for arbitrary `j`). -/
+    exactly `expectedFor` of the events of the run — one entry per instrumented operation that
+    *completed* (returned) while `j` was entered, in order of completion; an operation that raises
+    contributes nothing (operations that completed inside it keep their entries); the entry
+    designates `self`, or the owning graph / node for container methods; operations outside the
+    `with` block contribute nothing.  This holds simultaneously for every journal of a nest (the
+    theorem is for arbitrary `j`).  Hypothesis `DetailsOk` (a raising details expression aborts the
+    call); `DetailsPure` is not needed. -/
 theorem C20_entries (cfg : Cfg σ) (hdet : DetailsOk cfg) (fuel : Nat) (j : Nat) (b : Block σ)
     (w : World σ) (hchain : Chain w.table) (hj : ∀ k, (w.table k).cnt j = 0)
     (hact : (w.journals j).active = false) :
@@ -173,7 +195,7 @@ theorem C20_entries (cfg : Cfg σ) (hdet : DetailsOk cfg) (fuel : Nat) (j : Nat)
   obtain ⟨evs, htr, he, _⟩ := block_entries cfg hdet fuel j b w false hchain hj hact
   exact ⟨evs, htr, he⟩
 
-/-- a journal that is already entered around the block records the block's calls in the same way -/
+/-- a journal that is already entered around the block records the block's operations in the same way -/
 theorem C20_entries_active (cfg : Cfg σ) (hdet : DetailsOk cfg) (fuel : Nat) (j : Nat) (b : Block σ)
     (w : World σ) (hchain : Chain w.table) (hj : ∀ k, (w.table k).cnt j = 1)
     (hact : (w.journals j).active = true) :
@@ -183,47 +205,22 @@ theorem C20_entries_active (cfg : Cfg σ) (hdet : DetailsOk cfg) (fuel : Nat) (j
   obtain ⟨evs, htr, he, _⟩ := block_entries cfg hdet fuel j b w true hchain hj hact
   exact ⟨evs, htr, he⟩
 
-/-- what a raising call contributes: a method that raises has been recorded -/
-example : expectedFor id 0 true [.start 21 5, .finish 21 5 (.raise 3)] = [mkEntry 21 5] := by
+/-- a method that raises is not recorded -/
+example : expectedFor id 0 true [.start 21 5, .finish 21 5 (.raise 3)] = [] := by
+  simp [expectedFor]
+
+/-- a constructor that raises is not recorded; the constructor it had completed inside is; order
+    is order of completion (the inner constructor before the method that called it) -/
+example : expectedFor id 0 true
+    [.start 1 5, .start 12 6, .finish 12 6 (.ret .none), .finish 1 5 (.raise 3),
+     .start 21 7, .start 11 8, .finish 11 8 (.ret .none), .finish 21 7 (.ret .none)] =
+    [mkEntry 12 6, mkEntry 11 8, mkEntry 21 7] := by
   simp [expectedFor, kindOf, slots, targetOf]
 
-/-- a constructor that raises is not recorded; the constructor it had completed inside is -/
-example : expectedFor id 0 true
-    [.start 1 5, .start 12 6, .finish 12 6 (.ret .none), .finish 1 5 (.raise 3)] = [mkEntry 12 6] := by
-  simp [expectedFor, kindOf, slots]
-
-/-- a container method is recorded on its owner; calls before `enter` are not recorded -/
+/-- a container method is recorded on its owner; operations before `enter` are not recorded -/
 example : expectedFor (fun o => o + 100) 0 false
     [.start 21 5, .finish 21 5 (.ret .none), .enter 0, .start 33 7, .finish 33 7 (.ret .none), .exit 0,
      .start 26 5, .finish 26 5 (.ret .none)] = [mkEntry 33 107] := by
   simp [expectedFor, kindOf, slots, targetOf]
-
-/-! ## no strong reference -/
-
-/-- **C20_no_strong_ref**: whatever is run, no entry of any journal designates an IR object by a
-    strong reference (entries are only ever built by `record`, which stores a weak handle and the
-    integer id). -/
-theorem C20_no_strong_ref (cfg : Cfg σ) (fuel : Nat) (b : Block σ) (w : World σ) (h : AllWeak w) :
-    AllWeak (runBlock cfg fuel b w).1 :=
-  block_allWeak cfg fuel b w h
-
-/-- objects reachable from `roots` along strong references `edges` -/
-inductive Reach (edges : Obj → List Obj) (roots : List Obj) : Obj → Prop where
-  | root {o : Obj} : o ∈ roots → Reach edges roots o
-  | step {a b : Obj} : Reach edges roots a → b ∈ edges a → Reach edges roots b
-
-/-- consequence for the collector: keeping any set of journals alive adds nothing to what is
-    reachable — an IR object that the user code no longer reaches is unreachable. -/
-theorem C20_dropped_objects_die (cfg : Cfg σ) (fuel : Nat) (b : Block σ) (s : σ)
-    (edges : Obj → List Obj) (userRoots : List Obj) (kept : List Nat) (o : Obj) :
-    let w := (runBlock cfg fuel b (initialWorld s)).1
-    Reach edges (userRoots ++ kept.flatMap (fun i => heldBy (w.journals i))) o ↔ Reach edges userRoots o := by
-  have h0 : AllWeak (initialWorld s) := fun i => rfl
-  have h := C20_no_strong_ref cfg fuel b (initialWorld s) h0
-  have : kept.flatMap (fun i => heldBy ((runBlock cfg fuel b (initialWorld s)).1.journals i)) = [] := by
-    induction kept with
-    | nil => rfl
-    | cons i t ih => simp [List.flatMap_cons, h i, ih]
-  simp [this]
 
 end IrVerif.Journal
